@@ -25,6 +25,7 @@ STUBS = [
 def base_env(build):
     env = dict(os.environ)
     env["CARGO_NET_OFFLINE"] = "true"
+    env["RUST_BACKTRACE"] = "0"
     env["RUSTFLAGS"] = BUILD_FLAGS[build]
     env.pop("CARGO_TARGET_DIR", None)
     return env
@@ -147,7 +148,7 @@ def parse_kani_log(path):
                 res["stubs_applied"].append(line.strip())
             elif line.startswith("/// Check for `"):
                 mm = re.match(r"/// Check for `([^`]*)`: \"(.*)\"", line)
-                play = {"class": mm.group(1) if mm else "?", "desc": mm.group(2) if mm else line,
+                play = {"class": mm.group(1) if mm else "?", "desc": (mm.group(2) if mm else line).strip('"'),
                         "values": []}
                 res["playback"].append(play)
             elif play is not None:
